@@ -12,6 +12,7 @@ import FFVerif.Props.C06
 import FFVerif.Props.C07
 import FFVerif.Props.C09
 import FFVerif.Props.C16
+import FFVerif.Model.Sampler
 import FFVerif.Model.Miner
 import FFVerif.Props.C19
 import FFVerif.Props.C20
@@ -95,6 +96,24 @@ def handle (toks : List String) : Option String :=
   | ["c16walk", n, dim, path] => do
     let rows ← (if path == "-" then some [] else (path.splitOn ";").mapM parseList)
     some (if C16.walkOK (← n.toNat?) (← dim.toNat?) rows then "ok" else "fail:walk")
+  | ["mh", fcur, fcand, un, ud, domCand, domCur] => do
+    let fcur ← parseInt? fcur
+    let fcand ← parseInt? fcand
+    let r := Sampler.mhStep (σ := Bool) (fun b => if b then fcand else fcur)
+      (fun _ nxt => if nxt then domCand == "1" else domCur == "1") false true (← un.toNat?) (← ud.toNat?)
+    match r with
+    | .ok b => some (if b then "cand" else "cur")
+    | .error _ => some "error"
+  | ["auflags", fcur, fcand, uns, uds] => do
+    let fcur ← parseList fcur
+    let fcand ← parseList fcand
+    let uns ← parseNatList uns
+    let uds ← parseNatList uds
+    -- coordinate i: state 0 = current value, state 1 = proposed value
+    let fs : List (Int → Int) := (fcur.zip fcand).map (fun p => fun x => if x == 1 then p.2 else p.1)
+    match Sampler.auAssemble fs (fcur.map (fun _ => 0)) (fcur.map (fun _ => 1)) (uns.zip uds) with
+    | .ok flags => some (showList flags)
+    | .error e => some ("error:" ++ e)
   | "c09lin" :: args => do
     let a ← parseFloats args
     if a.size = 5 then some s!"{(C09.linearResidual a[0]! a[1]! a[2]! a[3]! a[4]!).toBits.toNat}" else none
